@@ -2,8 +2,11 @@
 (* Phase G: behaviours of SeekReader printed as JSON.  Every step carries the call and the
    complete expected outcome (`res`) plus the offset afterwards; the harness replays the calls
    on real DagReaders (every layout / leaf kind / chunk size / API variant) and compares.
-   The generator uses a single read API name; the harness maps it to Read / CtxReadFull
-   (variants: all Read, all CtxReadFull, alternating) -- the contract is the same. *)
+   The read calls are <<api, cx>> of SeekReader!LiveCalls: Read, CtxReadFull with a context that stays
+   alive ("bg") and CtxReadFull with a context of its own that the harness cancels right after the call
+   has returned ("after"); the contract is the same for all three, and what is expected of the calls
+   that follow does not depend on the contexts cancelled so far.  (A context cancelled BEFORE the call
+   has a nondeterministic outcome -- it is exercised in phase T only, see TraceSeekReader.) *)
 EXTENDS SeekReader
 CONSTANTS D,  \* bound on behaviour length (BFS)
           E   \* emit when Len(hist) = E
@@ -11,10 +14,10 @@ VARIABLE hist
 gvars == <<vars, hist>>
 
 GInit == Init /\ hist = <<>>
-Step(op, k, o, w) == hist' = Append(hist, [op |-> op, k |-> k, o |-> o, w |-> w,
+Step(op, k, o, w) == hist' = Append(hist, [op |-> op, cx |-> res'.cx, k |-> k, o |-> o, w |-> w,
                                             n |-> res'.n, lo |-> res'.lo, eofs |-> res'.eofs,
                                             err |-> res'.err, ret |-> res'.ret, off |-> off'])
-GStep == \/ \E k \in 0..MaxK : Read("Read", k) /\ Step("Read", k, 0, 0)
+GStep == \/ \E c \in LiveCalls, k \in 0..MaxK : ReadCx(c[1], c[2], k) /\ Step(c[1], k, 0, 0)
          \/ \E o \in SeekOffsets, w \in Whences : Seek(o, w) /\ Step("Seek", 0, o, w)
          \/ Seek(0, BadWhence) /\ Step("Seek", 0, 0, BadWhence)
          \/ WriteTo /\ Step("WriteTo", 0, 0, 0)
@@ -27,7 +30,7 @@ Emit == Len(hist) # E \/ PrintT(<<"BEHAVIOUR", ToJson(Out)>>)
 \* -simulate: print once per E steps from an action, then restart with a fresh file size
 Flush == /\ Len(hist) = E
          /\ PrintT(<<"BEHAVIOUR", ToJson(Out)>>)
-         /\ hist' = <<>> /\ size' \in 0..MaxSize /\ off' = 0 /\ res' = NoRes
+         /\ hist' = <<>> /\ size' \in 0..MaxSize /\ off' = 0 /\ res' = NoRes /\ dead' = 0
 GNextSim == IF Len(hist) = E THEN Flush ELSE GStep
 GSpecSim == GInit /\ [][GNextSim]_gvars
 =============================================================================
